@@ -106,7 +106,7 @@ def _invariant_families(ck: Checker, prog: Program):
             if len(g.params) < 2:
                 raise AnalysisError(f"{g.qualname}: expected (ns, ew, ...)")
             T = Translator(env={g.params[0]: r * sp.cos(phi), g.params[1]: r * sp.sin(phi)})
-            forward_substitute([st for st in g.node.body if isinstance(st, ast.Assign)], T)
+            forward_substitute([st for st in g.node.body if isinstance(st, (ast.Assign, ast.AugAssign))], T)
             rets = [x for x in own_nodes(g.node) if isinstance(x, ast.Return)]
             if len(rets) != 1:
                 raise AnalysisError(f"{g.qualname}: expected one return")
@@ -130,7 +130,7 @@ def _r1_r3(ck: Checker, prog: Program):
     cur = sp.Symbol("current", real=True)
     env = {"self.ns.amplitude": N, "self.ew.amplitude": E, "degrees_from_north": target, "self.degrees_from_north": cur}
     T = Translator(env=env)
-    forward_substitute([st for st in m.node.body if isinstance(st, ast.Assign)], T)
+    forward_substitute([st for st in m.node.body if isinstance(st, (ast.Assign, ast.AugAssign))], T)
     d = (target - cur) * sp.pi / 180
     want_ns = N * sp.cos(d) + E * sp.sin(d)
     want_ew = E * sp.cos(d) - N * sp.sin(d)
@@ -228,7 +228,7 @@ def _orientation_carried(ck: Checker, prog: Program):
 def _r2(ck: Checker, prog: Program):
     f = prog.func("processing.single_azimuth")
     T = Translator()
-    forward_substitute([st for st in f.node.body if isinstance(st, ast.Assign)], T)
+    forward_substitute([st for st in f.node.body if isinstance(st, (ast.Assign, ast.AugAssign))], T)
     rets = [r for r in own_nodes(f.node) if isinstance(r, ast.Return)]
     if len(rets) != 1:
         raise AnalysisError("single_azimuth: expected one return")
